@@ -258,6 +258,29 @@ def observe_debuglog(game):
     return f
 
 
+def observe_mutated_object(base, fns):
+    """history: the game object is built from the well-formed description, THEN the description is changed (the object's lists are
+    the caller's lists; the attributes are also re-assigned), then solve() is called: it must raise ValueError like a fresh object"""
+    f = []
+    for prune in (True, False):
+        d = copy.deepcopy(base)
+        try:
+            sg = tad.StochasticGame(prune_states=prune, **d)
+            for fn in fns:
+                fn(d)
+        except (IndexError, TypeError, AttributeError, KeyError):
+            return []
+        sg.rewards, sg.players, sg.transition_list, sg.final_states = d["rewards"], d["players"], d["transition_list"], d["final_states"]
+        st, val = budget.run_budgeted(sg.solve, cpu_s=1.0, max_lines=500_000)
+        if st == "exc" and isinstance(val, ValueError):
+            continue
+        what = "returned a result" if st == "ok" else ("did not terminate" if st == "diverged" else "raised %s: %s" % (type(val).__name__, val))
+        f.append(("C09/accepted-after-mutation", what, "ValueError",
+                  "a game object built from a well-formed description and then given the malformed one: solve(prune=%s) %s" % (prune, what)))
+        break
+    return f
+
+
 def observe_base(game):
     f = []
     for prune in (True, False):
@@ -325,6 +348,15 @@ def work(shard):
                     if len([v for v in out["violations"] if v["klass"] == f[0]]) < 2:
                         out["violations"].append(c)
                 found = [f for f in found if f is not None]
+            if len(combo) == 1 and base_quick:
+                out["executions"] += 2
+                out["mutated_objects"] = out.get("mutated_objects", 0) + 1
+                for f in observe_mutated_object(g, [fn for _, fn in combo]):
+                    c = mk_case(x, labels, f)
+                    c["config"]["mutated_object_from"] = g
+                    out["n_violations"] += 1
+                    if len([v for v in out["violations"] if v["klass"] == f[0]]) < 2:
+                        out["violations"].append(c)
             if len(combo) == 1 and base_quick and len(g["players"]) <= 5:
                 out["executions"] += 2
                 out["debuglog"] = out.get("debuglog", 0) + 1
@@ -379,7 +411,8 @@ def run(ctx):
            "single_deviations": tot["single"], "deviation_pairs": tot["pairs"],
            "single_deviations_replayed_after_a_well_formed_primer_containing_their_rows": tot.get("primed", 0),
            "single_deviations_run_in_a_batch_after_their_well_formed_base": tot.get("batch_after_good", 0),
-           "single_deviations_run_with_debug_log_level": tot.get("debuglog", 0), "pairs_on_smallest_bases": pair_bases,
+           "single_deviations_run_with_debug_log_level": tot.get("debuglog", 0),
+           "single_deviations_applied_to_an_already_constructed_object": tot.get("mutated_objects", 0), "pairs_on_smallest_bases": pair_bases,
            "single_deviations_per_rule": tot["rules"], "rule": RULE, "exhaustive": not tot.get("truncated"),
            "samples": tot["samples"][:3]}
     return {"coverage": cov, "violations": tot["violations"], "assumptions": ASSUME}
@@ -387,6 +420,12 @@ def run(ctx):
 
 def replay(case):
     g = case["input"]
+    if case["config"].get("mutated_object_from"):
+        base = case["config"]["mutated_object_from"]
+        devs = dict(deviations(base))
+        fns = [devs[l] for l in case["config"]["deviations"] if l in devs]
+        f = observe_mutated_object(base, fns)
+        return f[0][3] if f else None
     if case["config"].get("debuglog"):
         f = observe_debuglog(g)
         return f[0][3] if f else None
